@@ -126,7 +126,7 @@ def _call(ctx, qin, v, method, order, case_id, cls):
 def _interp(ctx):
     combos = []
     for method in METHODS:
-        for nv in (4, 5, 6, 8, 12):
+        for nv in (4, 5, 6, 7, 8, 9, 10, 12):
             for order in admissible_orders(method, nv):
                 combos.append((method, nv, order))
     reps = ctx.pick(1, 1000)
